@@ -48,7 +48,9 @@ PLAN = {
     "C13": [item("h_chain", "c13_chain", 9_600_000, 64_000_000, max_len=(1024, 8192))],
     "C14": [item("h_chain", "c14_chain", 9_600_000, 64_000_000, max_len=(1024, 8192))],
     "C15": [item("h_symbol", "c15_huffman", 3_200_000, 24_000_000, max_len=(2048, 16384))],
-    "C16": [item("h_symbol", "c16_bits", 9_600_000, 64_000_000, param=16, max_len=(1024, 8192))],
+    "C16": [item("h_symbol", "c16_bits", 9_600_000, 64_000_000, param=16, max_len=(1024, 8192)),
+            # batch forms of the bit-level coders == the per-symbol loop
+            item("h_symbol", "c16_batch", 1_600_000, 32_000_000, max_len=(512, 2048), fuzz_runs=400_000)],
     "C17": [item("h_symbol", "c17_backends", 9_600_000, 64_000_000, max_len=(1024, 8192))],
     "C18": [
         item("h_stream", "ans_sizes", 1_200_000, 32_000_000, max_len=(1024, 8192)),
